@@ -562,6 +562,12 @@ func (c *c13) RunCase(w *core.Worker, idx int, seed uint64, res *core.CaseResult
 		case 5:
 			wire = "nc-get"
 			script = nil
+		case 4:
+			wire = "once"
+			script = nil
+			// successive rounds report the same paths again: with more than one write worker two reports of one path are
+			// in flight together, which is the recorded finding (applied in completion order), not what this mode is about
+			W = 1
 		}
 	}
 	desc := fmt.Sprintf("W=%d validate=%v", W, validate)
@@ -633,7 +639,7 @@ func (c *c13) RunCase(w *core.Worker, idx int, seed uint64, res *core.CaseResult
 		dsOpts.Sync.Config = []*config.SyncProtocol{{Name: "config", Protocol: "netconf", Paths: []string{"/sys", "/if", "/if-x", "/ifx", "/peer", "/duo"}, Interval: 60 * time.Millisecond}}
 		res.Count("netconf_wire_cases", 1)
 	}
-	if wire == "stream" || wire == "get" {
+	if wire == "stream" || wire == "get" || wire == "once" {
 		var err error
 		if gdev, err = fixture.NewGNMIDevice(); err != nil {
 			res.Inconclusive("C13/wire/no-device", "%v", err)
@@ -651,6 +657,12 @@ func (c *c13) RunCase(w *core.Worker, idx int, seed uint64, res *core.CaseResult
 		if wire == "get" {
 			gdev.SetGetNotifs([]*gnmi.Notification{})
 			dsOpts.Sync.Config = append(dsOpts.Sync.Config, &config.SyncProtocol{Name: "get", Protocol: "gnmi", Mode: "get", Paths: []string{"/"}, Interval: 60 * time.Millisecond, Encoding: "PROTO"})
+		}
+		if wire == "once" {
+			// periodic ONCE subscriptions: every round reports what the device holds, nothing marks the end of a round
+			// (no pruning: the running store is what was reported so far, the latest value of each path)
+			gdev.SetGetNotifs([]*gnmi.Notification{})
+			dsOpts.Sync.Config = append(dsOpts.Sync.Config, &config.SyncProtocol{Name: "once", Protocol: "gnmi", Mode: "once", Paths: []string{"/sys"}, Interval: 60 * time.Millisecond, Encoding: "proto"})
 		}
 	}
 	ds := c.env.NewDS(dsOpts)
@@ -737,6 +749,56 @@ func (c *c13) RunCase(w *core.Worker, idx int, seed uint64, res *core.CaseResult
 		return true
 	}
 	nNotif, nDel, prunes := 0, 0, 0
+	if wire == "once" {
+		for round := 0; round < 3 && len(res.Findings) == 0; round++ {
+			var notifs []*gnmi.Notification
+			var cur syncItem
+			flush := func() {
+				if len(cur.Upds) == 0 {
+					return
+				}
+				if rng.Bool() {
+					cur.Prefix = 1 + rng.Intn(4)
+				}
+				notifs = append(notifs, cur.toGNMI())
+				m.apply(cur)
+				script = append(script, cur)
+				cur = syncItem{}
+			}
+			for _, l := range c13Leaves {
+				if l.state || !rng.Chance(1, 2) {
+					continue
+				}
+				form := "string"
+				if l.kind == "uint" && rng.Bool() {
+					form = "typed"
+				}
+				if l.kind == "llkeys" {
+					form = "llkeys"
+				}
+				cur.Upds = append(cur.Upds, syncUpd{Path: l.path, Val: l.vals[rng.Intn(len(l.vals))], Form: form})
+				if rng.Chance(1, 4) {
+					flush()
+				}
+			}
+			flush()
+			nNotif += len(notifs)
+			gdev.SetGetNotifs(notifs)
+			o0 := gdev.NumOnces()
+			if !waitFor(20*time.Second, func() bool { return gdev.NumOnces() >= o0+2 }) {
+				res.Inconclusive("C13/wire/once-rounds", "%s: no two ONCE subscriptions within 20 s", desc)
+				return
+			}
+			res.Count("once_rounds_awaited", 1)
+			if !barrier() {
+				res.Inconclusive("C13/barrier-timeout", "%s: the barrier was not reached within 20 s", desc)
+				return
+			}
+		}
+		for _, it := range script {
+			res.Tracef("  %s", it)
+		}
+	}
 	if wire == "get" || wire == "nc-get" {
 		// every Get is a complete re-sync cycle (start, what the device holds, end): after a cycle that began after the
 		// device changed, the running store is exactly what the device holds
@@ -814,7 +876,7 @@ func (c *c13) RunCase(w *core.Worker, idx int, seed uint64, res *core.CaseResult
 		}
 	}
 	for _, it := range script {
-		if wire == "get" || wire == "nc-get" {
+		if wire == "get" || wire == "nc-get" || wire == "once" {
 			break
 		}
 		if len(res.Findings) > 0 {
@@ -837,7 +899,7 @@ func (c *c13) RunCase(w *core.Worker, idx int, seed uint64, res *core.CaseResult
 			nDel += len(it.Dels)
 		}
 	}
-	if len(res.Findings) == 0 && wire != "get" && wire != "nc-get" {
+	if len(res.Findings) == 0 && wire != "get" && wire != "nc-get" && wire != "once" {
 		if !barrier() {
 			res.Inconclusive("C13/barrier-timeout", "%s: the final barrier was not reached within 20 s", desc)
 			return
